@@ -7,7 +7,7 @@ Parameters of the model (never modelled, DESIGN §4.3):
   the first record (the code hashes every name with exactly those).  No assumption on `H`.
 * `enc : Bytes → Bytes` — `data_encoding::BASE32_DNSSEC.encode` (base32hex, lower case, no padding).
   The driver instantiates it with the concrete encoder `base32hex` below; the theorems quantify over
-  every `enc` that is an order embedding (`EncOrd`, proved/sampled for `base32hex`).
+  every `enc` that is an order embedding (`EncOrd`, proved for `base32hex` in `Proofs/C09Base32.lean`).
 
 What the Rust compares (and the model keeps apart): NSEC3 *owner* hashes only exist as the first label
 of the owner name (base32hex **text**, compared as `Label`s, i.e. case-insensitively, shorter-is-less),
